@@ -5,6 +5,14 @@ pub mod c11;
 pub fn dispatch(ctx: &Ctx) -> Option<Outcome> {
     Some(match ctx.prop.as_str() {
         "C11" => c11::run(ctx),
+        "wire-selftest" => {
+            let mut o = Outcome::new();
+            match crate::wire::self_test() {
+                Ok(()) => o.case(1, true),
+                Err(e) => o.violation("wire-selftest", e, serde_json::json!({})),
+            }
+            o
+        }
         _ => return None,
     })
 }
